@@ -419,7 +419,7 @@ namespace
 			{
 				extTypeInfo.Size = metaInfo.FixedSeq;
 				extTypeInfo.DataOffset = 1 + metaInfo.DataSize;
-				if (pos + extTypeInfo.DataOffset < inputData.size())
+				if (pos + 1 < inputData.size())
 				{
 					extTypeInfo.ExtTypeCode = inputData[pos + 1];
 					// Currently only timestamp is specified as extension type
@@ -436,9 +436,10 @@ namespace
 			{
 				extTypeInfo.Size = ReadExtSize(metaInfo.ExtSize, inputData, pos + 1);
 				extTypeInfo.DataOffset = 1 + metaInfo.DataSize + metaInfo.ExtSize;
-				if (pos + extTypeInfo.DataOffset < inputData.size())
+				// The type code follows the bytes of the size
+				if (pos + 1 + metaInfo.ExtSize < inputData.size())
 				{
-					extTypeInfo.ExtTypeCode = inputData[pos + 1 + metaInfo.DataSize];
+					extTypeInfo.ExtTypeCode = inputData[pos + 1 + metaInfo.ExtSize];
 					// Currently only timestamp is specified as extension type
 					if (extTypeInfo.ExtTypeCode == '\xFF') {
 						extTypeInfo.ValueType = ValueType::Timestamp;
